@@ -332,6 +332,55 @@ INDICES = [None, 0, 1, 12]
 CLASSES = [None, "GL", "GS", "GI", "AwareASTNode"]
 
 
+def check_bushy(rec):
+    """Legacy traversals on an attached tree with 1 + 17 + 17^2 + 17^3 = 5220 nodes (more than any internal block size)."""
+    N._nodes.clear()
+    fan = 17
+
+    def mk(depth):
+        if depth == 0:
+            return GL(0, origin=NO_ORIGIN)
+        return GI(items=tuple(mk(depth - 1) for _ in range(fan)), origin=NO_ORIGIN)
+
+    root = mk(3)
+
+    def pre(n, out):
+        out.append(n)
+        for c in getattr(n, "items", ()):
+            pre(c, out)
+        return out
+
+    def post(n, out):
+        for c in getattr(n, "items", ()):
+            post(c, out)
+        out.append(n)
+        return out
+
+    def level(n):
+        out, q = [], [n]
+        while q:
+            out += q
+            q = [c for x in q for c in getattr(x, "items", ())]
+        return out
+
+    P, Q, L = pre(root, []), post(root, []), level(root)
+    third = {id(n) for k, n in enumerate(P) if k % 3 == 0}
+    case = {"tree": f"legacy, fan-out {fan}, depth 3 ({len(P)} nodes)", "start": "<start>", "bushy": True}
+    runs = [("dfs", lambda: root.dfs(), P), ("dfs-bu", lambda: root.dfs(bottom_up=True), Q), ("bfs", lambda: root.bfs(), L),
+            ("dfs-skip-self", lambda: root.dfs(skip_self=True), P[1:]), ("dfs-bu-skip-self", lambda: root.dfs(bottom_up=True, skip_self=True), Q[:-1]),
+            ("dfs-bu-filtered", lambda: root.dfs(filter=FalsyPredicate(lambda n: id(n) in third), bottom_up=True), [n for n in Q if id(n) in third]),
+            ("bfs-filtered", lambda: root.bfs(filter=FalsyPredicate(lambda n: id(n) in third)), [n for n in L if id(n) in third]),
+            ("gather", lambda: root.gather(GL), [n for n in P if isinstance(n, GL)])]
+    for name, mkgen, exp in runs:
+        rec.count("transitions"); rec.count("traces"); rec.count("evaluations"); rec.count("states")
+        got = list(mkgen())
+        if len(got) != len(exp) or any(a is not b for a, b in zip(got, exp)):
+            first = next((k for k, (a, b) in enumerate(zip(got, exp)) if a is not b), min(len(got), len(exp)))
+            rec.violation("C20|bushy|sequence", dict(case, traversal=name), f"legacy {name}: {len(got)} nodes yielded, {len(exp)} expected; first difference at {first}")
+        rec.outcome(f"bushy:{name}")
+    N._nodes.clear()
+
+
 def texts_of(steps, brackets=9):
     """Spellings of one step sequence: canonical; relative first step; '[]' written out for each step that has a field or a
     class but no index (one at a time)."""
@@ -363,6 +412,8 @@ def run_shard(cfg):
                 check_traversal(rec, d, light=(n >= 4))
                 check_calculate_xpath(rec, d)
                 check_recalculate(rec, d)
+    if k == 7 % of:
+        check_bushy(rec)
     # xpath
     N._nodes.clear()
     tcs = [TreeCase(d) for d in shaped()]
@@ -438,6 +489,9 @@ def run_shard(cfg):
 
 def replay(case, cfg):
     rec = Rec(cfg)
+    if case.get("bushy"):
+        check_bushy(rec)
+        return rec.result()["violations"]
     if "xpath" in case:
         from .c07 import parse_rendered
 
